@@ -165,6 +165,13 @@ func run(c *Case) {
 		g, _ := other.Header(ctx, 0)
 		c.process(repo, randHeader(r, *g.BlockHash(), 1231006505+600), 0, false, false)
 	case "verify":
+		if l, err := repo.GetVerifyOnlyLocatorHashes(ctx); err == nil {
+			items := make([]string, len(l))
+			for i, h := range l {
+				items[i] = hv(h)
+			}
+			c.coq = append(c.coq, "SVerifyLocator "+coqfmt.List(items))
+		}
 		c.verify(repo, bsv)
 		c.verify(repo, bch)
 		c.verify(repo, randHeader(r, tip, t))
